@@ -66,7 +66,7 @@ class NodeVocab:
             return None
 
         def py_in(m: Any, seq: V, x: V) -> Any:
-            if isinstance(x, VU) and x.sort == self.REF:
+            if isinstance(x, VU) and x.sort == self.REF and isinstance(seq, VSeq) and seq.sort.elem == self.REF:
                 m.ctx.assume(z3.Implies(z3.Contains(seq.term, z3.Unit(x.term)), self.contains_eq(seq.term, x.term)))
                 return self.contains_eq(seq.term, x.term)
             return None
